@@ -17,6 +17,8 @@ Inductive case :=
 | CStrInt (s : bytes) (r : Outcome Z)
 | CBool (b : bool) (s : bytes) (back : bool)
 | CStrBool (s : bytes) (r : bool)
+(* ConvertGoType(float f, int) gave r  (int(f); not part of the property) *)
+| CFloatInt (f : fbits) (r : Outcome Z)
 (* ConvertGoType(float f, str) gave s; ConvertGoType(s, num|float) gave back;
    library: FormatFloat(f,'f',-1,64) = lib_fmt, ParseFloat(lib_arg) = lib_parse *)
 | CNum (f : fbits) (s : bytes) (back : Outcome fbits) (lib_fmt lib_arg : bytes) (lib_parse : option fbits)
@@ -70,6 +72,7 @@ Definition agree (c : case) : bool :=
   | CStrInt s r => oz_eqb r (int_of_string s)
   | CBool b s back => bytes_eqb s (string_of_bool b) && Bool.eqb back (bool_of_string s)
   | CStrBool s r => Bool.eqb r (bool_of_string s)
+  | CFloatInt f r => oz_eqb r (Ok (int_of_float_bits f))
   | CNum f s back lib_fmt lib_arg lib_parse =>
       bytes_eqb s (string_of_num (fun _ => lib_fmt) f)
       && bytes_eqb (num_parse_arg s) lib_arg
@@ -90,6 +93,7 @@ Definition spec_ok (c : case) : bool :=
   | CStrInt _ _ => true
   | CBool b s back => Bool.eqb back b
   | CStrBool _ _ => true
+  | CFloatInt _ _ => true
   | CNum f s back _ _ _ => if is_finite f then on_eqb back (Ok f) else true
   | CStrNum _ _ _ _ => true
   (* through variables the string form comes back unchanged *)
